@@ -105,7 +105,7 @@ func zzMkStream(tag string, infos []*pcapmetadata.PcapInfo, v6 bool) *streams.St
 		// addresses from a two-element domain: sharing across streams/files is enumerated
 		s.ClientAddr = make([]byte, hl)
 		s.ServerAddr = make([]byte, hl)
-		s.ClientAddr[hl-1] = byte(1 + zz.Choice(tag+".caddr", 2))
+		s.ClientAddr[hl-1] = byte(1 + zz.Choice(tag+".caddr", zz.Param("caddrs", 2)))
 		s.ServerAddr[hl-1] = byte(1 + zz.Choice(tag+".saddr", zz.Param("saddrs", 2)))
 		s.ServerAddr[0] = 10
 		s.ClientPort, s.ServerPort = 1234, 80
